@@ -99,8 +99,10 @@ pub struct QM {
     pub unit: u8,
 }
 
-const Q_UNITS: [Option<&str>; 16] = [
+const Q_UNITS: [Option<&str>; 20] = [
     None, Some("g"), Some("kg"), Some("oz"), Some("lb"), Some("ml"), Some("l"), Some("cups"), Some("tsp"), Some("min"), Some("hours"), Some("cm"), Some("bag"), Some("cloves"), Some("grams"), Some("L"),
+    // unknown units that are not all lower case, one of them differing from another only by case
+    Some("EL"), Some("Pkg"), Some("Bag"), Some("Stück"),
 ];
 
 impl QM {
@@ -416,11 +418,48 @@ fn check_case(c: &RecipeCase, st: &mut Stats) -> Verdict {
     if let Err(e) = grand.same(&after) {
         vbail!("c10.categorize-grand-total", "splitting by aisle changed the grand total: {e}; aisle {conf_text:?}; sources {srcs:?}");
     }
+    // the three ways of reading the split list (borrowing iterator, public fields, consuming iterator) agree
+    let mut by_fields: BTreeMap<String, Totals> = BTreeMap::new();
+    for (cat, l) in &cat_list.categories {
+        for (_, q) in l.iter() {
+            by_fields.entry(cat.clone()).or_default().merge(&Totals::of(q.iter()));
+        }
+    }
+    for (_, q) in cat_list.other.iter() {
+        by_fields.entry("other".to_string()).or_default().merge(&Totals::of(q.iter()));
+    }
+    let mut by_into: BTreeMap<String, Totals> = BTreeMap::new();
+    match guard(move || {
+        let mut v = vec![];
+        for (cat, l) in cat_list {
+            for (name, q) in l {
+                v.push((cat.clone(), name, q));
+            }
+        }
+        v
+    }) {
+        Ok(v) => {
+            for (cat, _, q) in &v {
+                by_into.entry(cat.clone()).or_default().merge(&Totals::of(q.iter()));
+            }
+        }
+        Err(p) => vbail!("c10.panic.categorize", "consuming the categorized list panicked: {p}; aisle {conf_text:?}"),
+    }
+    for (what, other) in [("the public fields", &by_fields), ("the consuming iterator", &by_into)] {
+        let keys_a: Vec<&String> = got_by_cat.keys().collect();
+        let keys_b: Vec<&String> = other.keys().collect();
+        vensure!(keys_a == keys_b, "c10.categorized-views-differ", "categories seen through iter() {keys_a:?} but through {what} {keys_b:?}; aisle {conf_text:?}; sources {srcs:?}");
+        for (cat, t) in &got_by_cat {
+            if let Err(e) = t.same(&other[cat]) {
+                vbail!("c10.categorized-views-differ", "category {cat:?} read through iter() and through {what} holds different amounts: {e}; aisle {conf_text:?}; sources {srcs:?}");
+            }
+        }
+    }
     Ok(())
 }
 
 fn qm() -> impl Strategy<Value = QM> {
-    (0u8..3, 0u32..4000, 0u32..400, 0u8..16).prop_map(|(kind, a, b, unit)| QM { kind, a, b, unit })
+    (0u8..3, 0u32..4000, 0u32..400, 0u8..20).prop_map(|(kind, a, b, unit)| QM { kind, a, b, unit })
 }
 
 pub fn run(tier: Tier) -> i32 {
